@@ -88,6 +88,22 @@ class Ctx:
         if not cond:
             raise AnalysisError(what)
 
+    def require_locals(self, fref: str, names) -> None:
+        """Rules that refer to a local variable by name are only meaningful while that local exists.
+
+        A vanished local (renamed by a refactoring) is an analysis error (exit 2), never a violation."""
+        import ast as _ast
+
+        fn = self.repo.func(fref)
+        bound = {n.id for n in _ast.walk(fn.node) if isinstance(n, _ast.Name) and isinstance(n.ctx, (_ast.Store, _ast.Del))}
+        bound |= set(fn.params())
+        for a in _ast.walk(fn.node):
+            if isinstance(a, _ast.arg):
+                bound.add(a.arg)
+        missing = [n for n in names if n not in bound]
+        if missing:
+            raise AnalysisError(f"{fref}: local variable(s) {missing} that the rule refers to no longer exist (renamed?)")
+
     def expect_sites(self, rule: str, found: int, minimum: int, anchor: str, missing_is_violation=False,
                      what: str = "") -> bool:
         """Guard against vacuous passes: fewer sites than confirmed by reading."""
